@@ -324,7 +324,13 @@ func runPrivCase(t *testing.T, pc privCase) (res *privResult) {
 			return res
 		}
 		peer := transport.Peer{ID: "P", Address: "p:5555"}
-		if st.str("peer") != "unauth" {
+		switch st.str("peer") {
+		case "unauth":
+		case "claimed_listed":
+			peer.NodeDID = P.did // claimed / expected, never verified
+		case "auth_nodid":
+			peer.Authenticated = true
+		default:
 			peer.Authenticated = true
 			peer.NodeDID = P.did
 		}
@@ -370,7 +376,7 @@ func runPrivCase(t *testing.T, pc privCase) (res *privResult) {
 				viol("private-payload-in-"+kind, "a "+kind+" message carried the payload of a private transaction")
 			}
 			if !peer.Authenticated {
-				viol("private-payload-to-unauthenticated", "payload sent over an unauthenticated connection")
+				viol("private-payload-to-unauthenticated", "payload sent over an unauthenticated connection (peer class "+st.str("peer")+")")
 			} else if st.str("peer") != "auth_listed" {
 				viol("private-payload-to-unlisted", "payload sent to an authenticated peer that is not on the participant list")
 			}
@@ -434,6 +440,70 @@ func runPrivCase(t *testing.T, pc privCase) (res *privResult) {
 		}
 		if st.str("incoming") == "matching" && !storedWanted {
 			res.Drift = append(res.Drift, "matching payload was not stored")
+		}
+		return res
+	case "ReceiveList":
+		dec := decrypter{keys: map[string]*ecdsa.PrivateKey{H.kid: H.key}}
+		h := newHolder(t, dir, H.did, docResolver{parties}, dec)
+		defer h.close()
+		root := mkTx(nil, 0, nil, []byte("root payload"))
+		_ = h.state.Add(context.Background(), root, []byte("root payload"))
+		payload := []byte("PRIVATE-PAYLOAD-" + pc.ID)
+		tx := mkTx([]dag.Transaction{root}, 1, encryptPAL([]*party{H, P}, []*party{H, P}), payload)
+		if st.str("known") == "known_nopayload" {
+			_ = h.state.Add(context.Background(), tx, nil) // the private transaction is known, its payload not yet
+		}
+		peer := transport.Peer{ID: "P", Address: "p:5555", Authenticated: true, NodeDID: P.did}
+		conn := &capConn{h: h, peer: peer}
+		// the node asks the peer for the clock range (real sender, real conversation), the peer answers with a list
+		h.sent = nil
+		if err := v2.VerifSendRangeQuery(h.proto, conn, 0, 10); err != nil || len(h.sent) != 1 {
+			res.Error = fmt.Sprintf("range query not sent: %v", err)
+			return res
+		}
+		cid := h.sent[0].GetTransactionRangeQuery().ConversationID
+		var data []byte
+		switch st.str("incoming") {
+		case "matching":
+			data = payload
+		case "mismatching":
+			data = []byte("something else entirely")
+		}
+		env := &v2.Envelope{Message: &v2.Envelope_TransactionList{TransactionList: &v2.TransactionList{ConversationID: cid, TotalMessages: 1, MessageNumber: 1,
+			Transactions: []*v2.Transaction{{Data: tx.Data(), Payload: data}}}}}
+		herr := v2.VerifHandleSync(h.proto, conn, env)
+		txStored, _ := h.state.IsPresent(context.Background(), tx.Ref())
+		n := 0
+		var foreign []string
+		_ = h.db.ReadShelf(context.Background(), "payloads", func(r stoabs.Reader) error {
+			return r.Iterate(func(k stoabs.Key, v []byte) error {
+				n++
+				sum := sha256.Sum256(v)
+				if !bytes.Equal(sum[:], k.Bytes()) {
+					foreign = append(foreign, hex.EncodeToString(k.Bytes())[:8])
+				}
+				return nil
+			}, stoabs.HashKey{})
+		})
+		storedWanted, _ := h.state.IsPayloadPresent(context.Background(), tx.PayloadHash())
+		obs := "rejected"
+		if storedWanted {
+			obs = "stored"
+		}
+		res.Observed = obs
+		res.Trace = append(res.Trace, map[string]any{"ev": "receivelist", "known": st.str("known"), "incoming": st.str("incoming"), "observed": obs, "payloads": n, "tx_stored": txStored, "err": fmt.Sprint(herr)})
+		// the property on the real store: every stored payload hashes to its key, and nothing but a matching payload is kept
+		if len(foreign) > 0 {
+			viol("payload-stored-under-foreign-hash", fmt.Sprintf("payload store holds bytes that do not hash to their key (%v) after a TransactionList with a %s payload for a %s transaction", foreign, st.str("incoming"), st.str("known")))
+		}
+		if st.str("incoming") != "matching" && storedWanted {
+			viol("payload-stored-"+st.str("incoming"), "a "+st.str("incoming")+" payload delivered in a TransactionList was stored")
+		}
+		if st.str("incoming") == "mismatching" && st.str("known") == "new" && txStored {
+			viol("transaction-admitted-with-mismatching-payload", "a new transaction delivered with bytes that do not hash to its payload hash was admitted")
+		}
+		if obs != st.str("expect") {
+			res.Drift = append(res.Drift, fmt.Sprintf("ReceiveList %s/%s: model %s, code %s", st.str("known"), st.str("incoming"), st.str("expect"), obs))
 		}
 		return res
 	}
